@@ -13,6 +13,7 @@ import math, cmath, random
 
 # --------------------------------------------------------------------------- atoms
 _ATOMS = {}          # id -> Atom
+MAX_PRODUCT_TERMS = 600000   # work budget per polynomial product
 POSITIVE = set()     # ids of symbols a check declares to be > 0 (e.g. radii after normalisation)
 
 
@@ -207,6 +208,9 @@ class Poly(object):
             return self.scale(o)
         if len(self.t) > len(o.t):
             self, o = o, self
+        if len(self.t) * len(o.t) > MAX_PRODUCT_TERMS:
+            raise Undecidable('polynomial product too large (%d x %d terms): the expression left the tractable fragment'
+                              % (len(self.t), len(o.t)))
         acc = {}
         pending = []  # reducible products are expanded separately
         for m1, c1 in self.t.items():
